@@ -36,4 +36,7 @@ CONSTANTS
   InlinedAsIs = FALSE
   MaxChain = 10
   BoundBeforeRead = FALSE
+  TargetOpen = FALSE
+  SharedBuffer = FALSE
+  Bodies = {"b1"}
 INVARIANTS Once Repeat Terminates NoPanic ErrorsOnlyUnsupported Shape Sharing IsoInv
